@@ -37,7 +37,11 @@ func c01PickWorld(rng *core.Rng, want func(a *refmodel.Asset, r *refmodel.Rep) b
 	for {
 		var w c01World
 		var a *refmodel.Asset
-		if rng.Chance(0.4) {
+		if rng.Chance(0.08) { // bundled asset (with thumbnails) re-declared with endNumber below the number of files
+			g := &GenWorld{Derived: &DerivedSpec{Kind: "endnumber", EndNumber: rng.Range(2, 3)}}
+			w = c01World{VodRoot: "derived", Gen: g, Asset: derivedAsset}
+			a = refAssets(genRoot(*g))[derivedAsset]
+		} else if rng.Chance(0.4) {
 			g := pickGenWorld(rng)
 			w = c01World{VodRoot: "generated", Gen: g, Asset: g.Spec.Name}
 			a = refAssets(genRoot(*g))[g.Spec.Name]
